@@ -20,7 +20,9 @@ func init() {
 	reg1("C01Agree", SetupC01Agree, HarnessC01Agree)
 	reg1("C01Lookup", SetupC01Lookup, HarnessC01Lookup)
 	reg1("C02History", SetupC02History, HarnessC02History)
+	reg1("C07Pair", SetupC07Pair, HarnessC07Pair)
 	reg1("C08Tsr", SetupC08Tsr, HarnessC08Tsr)
+	reg1("C11Serve", SetupC11Serve, HarnessC11Serve)
 	reg1("C16Alloc", SetupC16Alloc, HarnessC16Alloc)
 	reg1("C09Host", SetupC09Host, HarnessC09Host)
 	reg1("C10Parse", SetupC10Parse, HarnessC10Parse)
